@@ -2,6 +2,7 @@
 //! Verification harness for Ryan-D-Gast/ivp (library part: shared by the `vf` binary and the fuzz targets)
 pub mod engine;
 pub mod evgen;
+pub mod field;
 pub mod gen;
 pub mod instr;
 pub mod lowlevel;
